@@ -118,6 +118,9 @@ def gen_program(rng: random.Random) -> dict:
                 pending.append((len(expected), 2, [sym(fwd[0])]))
                 pending.append((len(expected) + 2, 3, [sym(fwd[0])]))
                 expected += b"\0" * 5 + b"\x02\x00\x00" + b"\x02"
+            if len(expected) and rng.random() < 0.08:
+                # the position is set again to exactly where the output stands (a header written field by field): nothing moves
+                prog.append({"k": "org", "e": E(here())})
             if len(expected) and not ips_records and rng.random() < 0.06:
                 # a patch is included between two directives: the data around it keeps its place
                 from vf.ref import ips as ipsref
